@@ -24,7 +24,7 @@ def findings_table():
     out = ["| property | state | signature (input class that fails) | commit in /repo | what |", "|---|---|---|---|---|"]
     for e in d:
         what = re.sub(r"^fixed: property=\S+ \S+ ", "", e.get("what", "")).replace("|", "/").replace("\n", " ")
-        out.append(f"| {e['property']} | {e['state']} | `{e['signature'][:160]}` | {e.get('commit', '—') if e['state'] == 'fixed' else '—'} | {what[:420]} |")
+        out.append(f"| {e['property']} | {e['state']} | `{e['signature'][:160]}` | {e.get('commit', '—') if e['state'] == 'fixed' else '—'} | {what[:260]} |")
     n_fixed = sum(e["state"] == "fixed" for e in d)
     return f"{n_fixed} fixed entries, {len(d) - n_fixed} known findings.\n\n" + "\n".join(out)
 
@@ -51,7 +51,7 @@ def seeded_table():
             st = "not run"
         else:
             st = f"**missed** (exit {q.get('exit')})"
-        summ = (m.get("summary", "")[:260] + " — needs: " + m.get("needs_to_manifest", "")[:220]).replace("|", "/").replace("\n", " ")
+        summ = (m.get("summary", "")[:170] + " — needs: " + m.get("needs_to_manifest", "")[:130]).replace("|", "/").replace("\n", " ")
         rows.append(f"| {dd.name} | {m['property']} | {summ} | {st} |")
     return f"{n} seeded changes: {c} caught with a failing input, {w} caught without one, {n - c - w} missed / not applicable.\n\n" + "\n".join(rows)
 
